@@ -74,7 +74,9 @@ def _run_tree(args):
                           "label": label, "code": code})
             continue
         for e, (o, tok) in zip(missing, strip):
-            want_tok = e[6].replace(str(gen.PROBE), str(cli.token_id(tok)))
+            tid = cli.token_id(tok)
+            # (the in-process harness renders the insertion with a small probe ID; a key-value ID above i32::MAX carries its type)
+            want_tok = e[6].replace(str(gen.PROBE), str(tid) + ("u32" if tid > 2 ** 31 - 1 and not e[6].startswith("[ref") else ""))
             if tok.decode() != want_tok:
                 fails.append({"class": "edit-token", "detail": "expected token %r, got %r" % (want_tok, tok), "label": label, "code": code})
     if rep.total is not None and rep.total != total_missing:
